@@ -29,7 +29,8 @@ REAL = ["aiomysensors.Gateway.listen/send", "sleep buffer flush 2.0-2.2", "outgo
 STUB = ["event loop (SimLoop)", "transport (SimTransport with fail tape)"]
 ASSUMPTIONS = ["reference model is the oracle", "faults only on release writes"]
 REQUIRED_PROBES = ["fail_first_write", "fail_middle_write", "fail_last_write", "two_failures_two_wakes",
-                   "drained_after_faults", "send_between_faulty_wakes", "race_with_write_fault"]
+                   "drained_after_faults", "send_between_faulty_wakes", "race_with_write_fault",
+                   "stalled_link_full_stack"]
 ASPECTS = ("send", "writes.", "outcome")
 SHRINK_LISTS = ("ops", "tapes", "scn")
 PATTERNS = 128
@@ -80,6 +81,11 @@ def gen(seed: int, i: int, tier: str) -> dict:
             ops.append(["reenter"])  # the caller reconnects after the transport failure (same Gateway object)
     for n in nodes + nodes:
         ops.append(["line", G.wake_line(proto, n, 90)])
+    if pattern == PATTERNS - 2 and rng.random() < 0.7:
+        # this slot of the pair runs on the full TCP stack with a link that stalls but never fails: every parked
+        # command must arrive exactly once and no failure may be reported
+        return {"cfg": {"pin": proto, "link": "tcp"}, "ops": ops, "pattern": pattern,
+                "tapes": {"link.stall": [rng.choice([0, 2, 15, 40]) for _ in range(6)], "link.chunk": [0, 3, 0, 5]}}
     kind = rng.choice([1, 2])
     fails = [kind if (pattern >> b) & 1 else 0 for b in range(7)]
     lat = [rng.choice([0, 1]) for _ in range(10)] if kind == 2 or rng.random() < 0.5 else []
@@ -127,6 +133,9 @@ def run(scn):
             res.probes["send_between_faulty_wakes"] += 1
 
     res = execute(scn, PROP, ASPECTS, on_step=on_step)
+    if scn["cfg"].get("link") == "tcp":
+        res.probes["stalled_link_full_stack"] += 1
+        res.nontrivial_key = "C08t:" + res.digest[:24]
     if st["failed"]:
         res.nontrivial_key = "C08:" + res.digest[:24]  # distinct event logs (unused tape tail does not count)
     return res
